@@ -747,6 +747,37 @@ impl<'a> Ctx<'a> {
                         ));
                     }
                 }
+                // ... and nothing of the document follows it: in the per-process mode the
+                // expression is the end of the script, in the single-script mode only scrut's
+                // own divider lines stand between two expressions
+                if from > 0 {
+                    let rest = &script[from..];
+                    let until = p
+                        .script_nonces
+                        .iter()
+                        .filter_map(|m| find(rest, format!("@vs:{}@", m).as_bytes()))
+                        .min()
+                        .map(|i| rest[..i].iter().rposition(|c| *c == b'\n').map(|q| q + 1).unwrap_or(0))
+                        .unwrap_or(rest.len());
+                    let foreign = rest[..until].split(|c| *c == b'\n').find(|l| {
+                        let l = String::from_utf8_lossy(l);
+                        let l = l.trim();
+                        !(l.is_empty() || l.starts_with("echo \"") || l.starts_with("1>&2 echo \""))
+                    });
+                    if let Some(l) = foreign {
+                        out.push(v(
+                            "C13",
+                            "expr-rewritten",
+                            Some(n),
+                            format!(
+                                "after the expression of test {} the shell (pid {}) received text that is not part of it: {:?}",
+                                n,
+                                p.pid,
+                                Bytes(l.to_vec())
+                            ),
+                        ));
+                    }
+                }
             }
         }
         // the command ended with an exit code, scrut recorded none
